@@ -15,7 +15,7 @@ CONSTANTS
   DerivedP = {"props", "bare", "empty"}
   DerivedC = {}
   DerivedM = {}
-  DerivedW = {"arrmax"}
+  DerivedW = {}
   MaxOverrides = 1
   MaxRoots = 2
 CONSTRAINT GBound
